@@ -261,6 +261,145 @@ def stream_pytype(ctx: Ctx) -> Stream:
 
 
 # ---------------------------------------------------------------------------------------------
+# search: the property's own oracle on the real code (harness/c03_search.py)
+
+SEARCH_ENV: list[tuple[str, X.Ty]] = [
+	*X.BASE_ENV,
+	('xo', ('list', ('opt', X.INT))), ('do', ('dict', X.STR, ('opt', X.INT))), ('so', ('list', ('opt', X.STR))),
+	('tt', ('tuple', X.FLOAT, X.BOOL, X.INT)), ('di', ('dict', X.INT, X.STR)),
+]
+
+
+def finding_of(dis: dict[str, Any], src: str, call: Any, session: str) -> Finding:
+	what = (f"{dis['why']}: `{dis['text']}` inferred {dis['real']} but CPython computed {dis['runtime']}"
+		if dis['why'] == 'type' else f"{dis['why']}: `{dis['text']}` -> {dis['real']} although CPython computed {dis['runtime']}")
+	return Finding(key=dis['key'], what=what, replay={'program': src, 'call': call, 'span': dis['span'], 'text': dis['text'],
+		'inferred': dis['real'], 'runtime': dis['runtime'], 'raw_key': dis['raw_key'], 'session': session})
+
+
+def check_program(sess: Session, src: str, calls: list[tuple[str, list[Any]]], res: SearchResult, session: str, label: str) -> None:
+	"""run one program under the recorder and compare every observed expression with the real inference"""
+	from harness import c03_search as S
+	try:
+		run = S.Run(src)
+	except SyntaxError:
+		res.histogram['skipped:not-python'] = res.histogram.get('skipped:not-python', 0) + 1
+		return
+	err = run.load()
+	if err is not None:
+		res.histogram['skipped:load-error'] = res.histogram.get('skipped:load-error', 0) + 1
+		return
+	for fn, args in calls:
+		run.call(fn, args)
+	res.cases += 1
+	try:
+		refl, mod = sess.module(src)
+	except Exception as e:  # noqa: BLE001 - CPython ran the program: the real code must accept it
+		res.findings.append(Finding(key=f'raises:{exc_enum(e)}:load', what=f'tranp cannot load a program CPython runs: {exc_enum(e)}: {str(e)[:200]}',
+			replay={'program': src, 'session': session}))
+		return
+	dis, stats = S.compare(run, refl, mod)
+	for k, v in stats.items():
+		res.histogram[f'{label}:{k}'] = res.histogram.get(f'{label}:{k}', 0) + v
+	for d in dis:
+		res.findings.append(finding_of(d, src, calls[:3], session))
+	if len(res.samples) < 2 and stats['compared'] > 3:
+		res.samples.append({'program': src[:600], 'stats': stats})
+
+
+def search_witnesses(ctx: Ctx) -> SearchResult:
+	"""corpus/C03/*witness*.json: the concrete witnesses of the `_counterexample` theorems and of every understood failing input
+	class, each in a fresh session (deterministic: the same KNOWN-FINDING / VIOLATION lines for every seed)"""
+	res = SearchResult('defect witnesses (corpus): real type_of vs CPython run-time type, one fresh session each')
+	d = os.path.join(common.CORPUS_DIR, PROP)
+	for fn in sorted(os.listdir(d)) if os.path.isdir(d) else []:
+		if not fn.endswith('.json'):
+			continue
+		with open(os.path.join(d, fn), encoding='utf-8') as f:
+			rec = json.load(f)
+		w = rec.get('witness')
+		if not w:
+			continue
+		calls = [(c[0], [tuple(a) if w.get('tuple_args') and isinstance(a, list) else a for a in c[1]]) for c in w['calls']]
+		before = len(res.findings)
+		check_program(Session(ctx), w['program'], calls, res, fn, 'witness')
+		got = sorted({f.key for f in res.findings[before:]})
+		res.histogram[f"witness:{w.get('expect_key')}:{'reproduced' if w.get('expect_key') in got else 'NOT-reproduced'}"] = 1
+		for k in got:
+			if k != w.get('expect_key'):
+				res.histogram[f'witness-other:{k}'] = 1
+	res.distinct = res.cases
+	res.note = 'a witness that is no longer reproduced means the defect was repaired (the model and the corpus then need the repaired behaviour)'
+	return res
+
+
+def search_exprs(ctx: Ctx) -> SearchResult:
+	"""typed functions around generated expressions, called with generated arguments"""
+	rng = ctx.sub_rng('search-exprs')
+	res = SearchResult('expression sites of typed functions: real type_of vs CPython run-time type (shared and fresh sessions)')
+	seen: set[str] = set()
+	n_sessions = ctx.scale(2, 8)
+	for si in range(n_sessions):
+		sess = Session(ctx)
+		budget = {'hetero': 1}
+		for pi in range(ctx.scale(10, 40)):
+			fns = []
+			for i in range(8):
+				g = X.Gen(rng, SEARCH_ENV, 'search', session=budget)
+				t = g.pick_ty(2) if rng.random() < 0.8 else ('list', ('opt', X.INT))
+				fns.append(g.expr(t, rng.randint(1, 4)).text)
+			src = ''.join(X.header(SEARCH_ENV).replace('def f(', f'def f{i}(') + f'\tv = {e}\n\n' for i, e in enumerate(fns))
+			calls = []
+			for i in range(8):
+				for _ in range(3):
+					calls.append((f'f{i}', [X.gen_value(rng, t) for _, t in SEARCH_ENV]))
+			seen.update(fns)
+			check_program(sess, src, calls, res, f'session{si}:program{pi}', 'exprs')
+	res.distinct = len(seen)
+	res.note = 'session = one tranp App reused for all its programs (history effects of the inference service are part of the quantifier)'
+	return res
+
+
+def search_programs(ctx: Ctx) -> SearchResult:
+	"""whole programs of harness/gen_prog.py (functions, classes, loops, containers) with their argument vectors"""
+	from harness import gen_prog
+	rng = ctx.sub_rng('search-programs')
+	res = SearchResult('whole generated programs: every declaration and expression site, real type_of vs CPython run-time type')
+	sess = Session(ctx)
+	seen: set[str] = set()
+	for pi in range(ctx.scale(40, 400)):
+		if pi % 60 == 59:
+			sess = Session(ctx)
+		try:
+			p, _ = gen_prog.generate(random.Random(rng.random()), rng.choice([2, 3, 3, 4]), rng.choice(['stmt', 'class', 'stmt', 'expr']))
+			src = gen_prog.print_prog(p)
+			calls = [(fn, list(args)) for fn, vecs in p.args.items() for args in vecs[:3]]
+		except Exception:  # noqa: BLE001 - the generator belongs to another check; a failure there is not a C03 case
+			res.histogram['skipped:generator'] = res.histogram.get('skipped:generator', 0) + 1
+			continue
+		seen.add(src)
+		check_program(sess, src, calls, res, f'program{pi}', 'programs')
+	res.distinct = len(seen)
+	return res
+
+
+def search_typed_programs(ctx: Ctx) -> SearchResult:
+	"""whole programs of harness/c03_progs.py: classes, inheritance, Enum, Generic, optionals, containers of objects"""
+	from harness import c03_progs
+	rng = ctx.sub_rng('search-typed-programs')
+	res = SearchResult('typed whole programs (classes, Enum, Generic, optionals, containers of objects): real type_of vs CPython run-time type')
+	sess = Session(ctx)
+	seen: set[str] = set()
+	for pi in range(ctx.scale(25, 250)):
+		if pi % 40 == 39:
+			sess = Session(ctx)
+		src, entry, args, hist = c03_progs.generate(random.Random(rng.random()), allow_hetero=(pi % 40 == 7))
+		for k, v in hist.items():
+			res.histogram[f'feature:{k}'] = res.histogram.get(f'feature:{k}', 0) + v
+		seen.add(src)
+		check_program(sess, src, [(entry, a) for a in args], res, f'program{pi}', 'typed')
+	res.distinct = len(seen)
+	return res
 
 
 STATEMENTS: dict[str, str] = {}
@@ -276,7 +415,8 @@ def run(ctx: Ctx) -> int:
 	proof = common.prove(ctx, PROP, leanchecker=ctx.thorough)
 	with ctx.timed('correspondence'):
 		streams = [stream_infer(ctx), stream_pytype(ctx)]
-	searches: list[SearchResult] = []
+	with ctx.timed('search'):
+		searches = [search_witnesses(ctx), search_exprs(ctx), search_programs(ctx), search_typed_programs(ctx)]
 	return common.finish(ctx, proof, streams, searches, statements=STATEMENTS, translate_ok=translate_ok, translate_msg=translate_msg)
 
 
